@@ -21,6 +21,7 @@ import (
 
 	"go.nanomsg.org/mangos/v3"
 	"go.nanomsg.org/mangos/v3/errors"
+	"go.nanomsg.org/mangos/v3/internal/verifyield"
 	"go.nanomsg.org/mangos/v3/transport"
 )
 
@@ -146,6 +147,7 @@ func (d *dialer) pipeConnected() {
 }
 
 func (d *dialer) pipeClosed() {
+	verifyield.Point("core.dialer.pipeClosed")
 	// We always want to sleep a little bit after the pipe closed down,
 	// to avoid spinning hard.  This can happen if we connect, but the
 	// peer refuses to accept our protocol.  Injecting at least a little
@@ -167,6 +169,7 @@ func (d *dialer) dial(redial bool) error {
 	d.Unlock()
 
 	p, err := d.d.Dial()
+	verifyield.Point("core.dial.afterDial")
 	if err == nil {
 		d.s.addPipe(p, d, nil)
 		return nil
